@@ -321,6 +321,13 @@ def rule_h(ctx):
     plumbing.rule_send_helpers(ctx, 'C12.b')
 
 
+def rule_i(ctx):
+    """A request on a stream id that is in use is answered with REJECTED and replaces nothing (shared C13.d): the
+    protocol-violating frame must not disturb the stream registered under that id."""
+    from .c13 import rule_d as c13d
+    c13d(ctx)
+
+
 def rule_g(ctx):
     """An unsolicited LEASE frame cannot stall the victim's requests (shared C14.f)."""
     from .c14 import rule_gate_scope
@@ -328,4 +335,4 @@ def rule_g(ctx):
 
 
 RULES = [('C12.a', rule_a), ('C12.b', rule_b), ('C12.c', rule_c), ('C12.d', rule_d), ('C12.e', rule_e),
-         ('C12.f', rule_f), ('C14.f', rule_g), ('C12.b', rule_h)]
+         ('C12.f', rule_f), ('C14.f', rule_g), ('C12.b', rule_h), ('C13.d', rule_i)]
